@@ -1,5 +1,5 @@
 (* C09 non-vacuity: concrete values meeting the hypotheses of each theorem. *)
-From V Require Import Common.Base C09.Cache C09.CacheProofs C09.Watch C09.WatchProofs.
+From V Require Import Common.Base C09.Cache C09.CacheProofs C09.Watch C09.WatchProofs C09.CacheSet C09.CacheSetProofs.
 
 (* a history with a hit (same usable key), a miss after an edit that changed
    the key, and an unusable key: the hypothesis holds and the hit is real *)
@@ -65,7 +65,8 @@ Definition ex_ww (names : list name) : wworld :=
   mkWw (fun p => if p =? 1 then Some names else None)
        (fun p => if p =? 2 then RdOk 5 else RdErr 2)
        (fun p => if p =? 2 then MKOk [9; 9] else MKErr 2)
-       (fun p => p =? 2).
+       (fun p => p =? 2)
+       (fun d n => if (d =? 1) && name_in n names then (2, None) else (0, None)).
 Definition ex_log : list obs := [OReadDir 1; OGet 1 ex_a; OGet 1 ex_b; OModKey 2; OReadFile 2; OModKey 3; OReadFile 3].
 Example ex_watch_clean : clean (ex_ww [ex_a; ex_u]) (finalize (ex_ww [ex_a]) (record (ex_ww [ex_a]) ex_log)) = true.
 Proof. vm_compute. reflexivity. Qed.
@@ -82,3 +83,45 @@ Example ex_watch_file_hyps : forall p, p = 2 \/ p = 3 -> file_hyps (ex_ww [ex_a]
 Proof.
   intros p [H|H]; subst p; unfold file_hyps, coherent_at; cbn; repeat split; intros; try discriminate; try congruence; eauto.
 Qed.
+
+(* entry kinds: the build asks for the kind of a.js (a plain file, which it then
+   reads); all kind hypotheses hold in both worlds and the theorem's conclusion
+   is checked by computation *)
+Definition ex_child (d : path) (n : name) : path := if name_eqb n ex_a then 2 else 9.
+Definition ex_log_k : list obs := [OReadDir 1; OGet 1 ex_a; OKind 1 ex_a; OModKey 2; OReadFile 2].
+Ltac kind_hyps_file :=
+  unfold kind_hyps; split; [vm_compute; reflexivity|];
+  split; [vm_compute; split; intro; reflexivity|];
+  split; [vm_compute; split; [discriminate | let H := fresh in intro H; exfalso; apply H; reflexivity]|];
+  split; [vm_compute; right; right; reflexivity|];
+  split; [let n0 := fresh in let E := fresh in
+          intros n0 E; vm_compute in E; inversion E; subst; vm_compute; split; intro; [reflexivity | discriminate]
+         | let E := fresh in intro E; vm_compute in E; discriminate].
+Example ex_kind_hyps : kind_hyps ex_child (ex_ww [ex_a]) 1 ex_a.
+Proof. kind_hyps_file. Qed.
+Example ex_kind_hyps' : kind_hyps ex_child (ex_ww [ex_a; ex_u]) 1 ex_a.
+Proof. kind_hyps_file. Qed.
+Example ex_kind_companions : kind_companions ex_child ex_log_k (ex_ww [ex_a]) 1 ex_a.
+Proof.
+  unfold kind_companions. split; [right; left; reflexivity|].
+  split; [intros _; vm_compute; do 4 right; left; reflexivity | intro H; vm_compute in H; discriminate].
+Qed.
+Example ex_kind_all_same :
+  clean (ex_ww [ex_a; ex_u]) (finalize (ex_ww [ex_a]) (record (ex_ww [ex_a]) ex_log_k)) = true /\
+  all_same (ex_ww [ex_a]) (ex_ww [ex_a; ex_u]) ex_log_k = true.
+Proof. split; vm_compute; reflexivity. Qed.
+
+(* the whole cache set: a build that reads package.json through the resolver's
+   cached read, then parses a JS file with an option taken from it and a CSS file *)
+Definition ex_b3 : build3 (Z * Z) Z Z Z Z Z Z Z :=
+  read_json (fun p c => (p, c)) 2 0 (fun cfg =>
+    ReadFile3 1 (fun r => match r with
+      | RdOk c => ParseJS (1, c) (match cfg with Some j => j | None => 0 end) (fun a =>
+                  ParseCSS (3, 7) 0 (fun s => Ret3 (a + s)))
+      | RdErr e => Ret3 (- e) end)).
+Definition ex_p3 (s : Z * Z) (o : Z) : Z := snd s * 10 + o.
+Example ex_rebuilds3 :
+  rebuilds3 (Z * Z) Z Z Z Z Z Z Z fst (fun a b => (fst a =? fst b) && (snd a =? snd b)) Z.eqb Z.eqb Z.eqb ex_p3 ex_p3 (fun s _ => snd s)
+    cs_empty [(ex_w 5 1 2 1, ex_b3); (ex_w 5 1 2 1, ex_b3); (ex_w 6 2 2 1, ex_b3); (ex_w 6 2 3 2, ex_b3)]
+  = [122; 122; 132; 133].
+Proof. vm_compute. reflexivity. Qed.
